@@ -46,6 +46,10 @@ def advOk (p q : Proj) : Bool :=
 
 def same (p q : Proj) : Bool := p == q
 
+/-- `discard()` takes the dropped jobs' entries out of unord_q: at most `k` go -/
+def unordDrop (p q : Proj) (k : Nat) : Bool :=
+  decide (q.unord ≤ p.unord) && decide (p.unord - q.unord ≤ k)
+
 /-- rules for the locked section *starting* a task (up to its first unlock) -/
 def headOk (task : String) (p q : Proj) : Bool :=
   if task = "parse" then
@@ -69,7 +73,7 @@ def tailOk (phase : String) (p q : Proj) : Bool :=
   if phase = "parse" then
     -- MORE
     (advOk p { q with pt := p.pt, wu := q.wu - 1 } && q.pt && decide (0 < q.wu)
-      && decide (q.order = p.order) && decide (q.unord = p.unord) && (q.pd == p.pd))
+      && decide (q.order = p.order) && unordDrop p q (p.retr - q.retr) && (q.pd == p.pd))
     -- FINISH
     || (q.pd && q.pt && decide (q.inq = 0) && decide (q.scan = 0) && decide (q.retr = 0)
         && decide (q.unord = 0) && decide (q.wu = p.wu + p.retr + 1) && decide (q.head = p.tail)
@@ -84,18 +88,18 @@ def tailOk (phase : String) (p q : Proj) : Bool :=
         && decide (0 < q.wu)
         && advOk p { q with wu := q.wu - 1, order := p.order, unord := p.unord, pt := p.pt })
   else if phase = "retrieve" then
-    -- parsing_done / abort
-    q == { p with wu := p.wu + 1 }
+    -- parsing_done / abort / overtaken: discard
+    q == { p with wu := p.wu + 1 } || q == { p with wu := p.wu + 1, unord := p.unord - 1 }
     -- MORE, speculative
     || q == { p with retr := p.retr + 1 }
     -- MORE, master
     || (decide (0 < q.retr) && (q.pt == p.pt) && (q.pd == p.pd) && decide (q.order = p.order)
-        && decide (q.unord = p.unord)
+        && unordDrop p q (p.retr - (q.retr - 1))
         && advOk p { q with retr := q.retr - 1 })
     -- finished, speculative
     || q == p
     -- finished, master
-    || (q.pt && (q.pd == p.pd) && decide (q.order = p.order) && decide (q.unord = p.unord)
+    || (q.pt && (q.pd == p.pd) && decide (q.order = p.order) && unordDrop p q (p.retr - q.retr)
         && advOk p { q with pt := p.pt })
   else if phase = "retr2" then q == { p with emit := p.emit + 1 }
   else if phase = "emit" then
